@@ -8,6 +8,7 @@ import (
 	"strconv"
 	"strings"
 	"sync"
+	"sync/atomic"
 	"testing"
 	"time"
 
@@ -129,10 +130,13 @@ func c05Reference(sc *c13Scenario) (lines []string, states []string, v *Violatio
 }
 
 type c05Obs struct {
-	k    int
-	bg   bool
-	h    int
-	snap string
+	k       int
+	bg      bool
+	h       int
+	snap    string
+	exit    string // foreground, burst mode: the tracker as seen just before the handler returned
+	hasExit bool
+	closing bool // the harness had already begun to close the connection when the handler started
 }
 
 func runC05(sc *c05Scenario) (nontrivial bool, v *Violation) {
@@ -145,6 +149,7 @@ func runC05(sc *c05Scenario) (nontrivial bool, v *Violation) {
 	defer tc.shutdown()
 	var mu sync.Mutex
 	var obs []c05Obs
+	var closing atomic.Bool
 	for _, verb := range append([]string{"001"}, c05Verbs...) {
 		for h := 0; h < sc.NFG+sc.NBG; h++ {
 			h, bg := h, h >= sc.NFG
@@ -153,10 +158,8 @@ func runC05(sc *c05Scenario) (nontrivial bool, v *Violation) {
 				if err != nil {
 					return
 				}
-				s := snapTracker(c.StateTracker(), nicks, chans)
-				mu.Lock()
-				obs = append(obs, c05Obs{k, bg, h, s})
-				mu.Unlock()
+				o := c05Obs{k: k, bg: bg, h: h, closing: closing.Load()}
+				o.snap = snapTracker(c.StateTracker(), nicks, chans)
 				if !bg && sc.Burst && len(sc.Delays) > 0 {
 					if d := sc.Delays[(k+h)%len(sc.Delays)]; d > 0 {
 						time.Sleep(time.Duration(d) * time.Microsecond)
@@ -164,11 +167,11 @@ func runC05(sc *c05Scenario) (nontrivial bool, v *Violation) {
 						runtime.Gosched()
 					}
 					// still nothing later may be reflected when a foreground handler is about to return
-					s2 := snapTracker(c.StateTracker(), nicks, chans)
-					mu.Lock()
-					obs = append(obs, c05Obs{k, bg, h, s2})
-					mu.Unlock()
+					o.exit, o.hasExit = snapTracker(c.StateTracker(), nicks, chans), true
 				}
+				mu.Lock()
+				obs = append(obs, o)
+				mu.Unlock()
 			}
 			if bg {
 				tc.C.HandleBG(verb, client.HandlerFunc(f))
@@ -191,6 +194,7 @@ func runC05(sc *c05Scenario) (nontrivial bool, v *Violation) {
 			done := make(chan error, 1)
 			go func() {
 				time.Sleep(time.Duration(sc.ReconnectAfterUS) * time.Microsecond)
+				closing.Store(true)
 				tc.C.Close()
 				done <- tc.C.Connect()
 			}()
@@ -231,6 +235,15 @@ func runC05(sc *c05Scenario) (nontrivial bool, v *Violation) {
 		}
 		if o.bg && sc.Burst {
 			continue // later lines may legitimately be applied while a background handler runs
+		}
+		if o.hasExit && o.exit != o.snap {
+			return changed > 0, &Violation{Property: "C05", Msg: fmt.Sprintf("the tracker changed while foreground handler %d for line %d %q was running (a later line, or a reconnect, was applied under it)", o.h, o.k, lines[o.k]),
+				Detail: map[string]string{"on_entry": o.snap, "before_return": o.exit}}
+		}
+		if o.closing {
+			// once the disconnect has begun, undispatched lines may be discarded, so a line that is still
+			// dispatched need not see all its predecessors applied: only stability (above) is checked
+			continue
 		}
 		if o.snap != ref[o.k] {
 			kind := "foreground"
